@@ -60,6 +60,12 @@ def propagateDft (fs : List (TField K R)) (αr αc : R) (S0 S1 P0 P1 os : Int) (
   fs.filterMap fun t => propagateField t αr αc (outExtent (S0 * os) (S1 * os) mask) (P0 * os) (P1 * os)
 end
 
+/-- value of an optional output field on the infinite zero-padded plane (`none` = no field was produced = zero) -/
+def embO [Zero K] (o : Option (Fld K)) (r c : Int) : K :=
+  match o with
+  | some g => g.emb r c
+  | none => 0
+
 /-- `Wavefront.field`: every field inserted into zeros of the wavefront's shape -/
 def wavefrontField [Add K] [Mul K] [Zero K] (one : K) (fs : List (Fld K)) (S0 S1 : Int) : Arr K :=
   fs.foldl (fun out f => insertArr f out one) { s0 := S0, s1 := S1, get := fun _ _ => 0 }
